@@ -1,0 +1,29 @@
+//go:build verif
+
+// Contracts for package dawn (comment-only; read by /verif/govc, ignored by the compiler).
+package dawn
+
+// ---------------------------------------------------------------- C20: cache.once
+
+// call_failed - outcome of this goroutine's latest starlark.Call (set by the assumed contract of Call)
+//@ ghost call_failed bool threadlocal = false
+
+//@ struct dawn.cache
+//@   protected_by m: entries
+//@   both m: grow: forall k: string :: old(has(this.entries, k)) ==> (has(this.entries, k) && this.entries[k] == old(this.entries[k]))
+//@   guarantee m: failed-call-stores-nothing: call_failed ==> (forall k: string :: has(this.entries, k) == old(has(this.entries, k)))
+
+//@ func (*dawn.cache).get
+//@   requires c != nil && c.entries != nil
+//@   requires nolock: !holds(c.m) && !rholds(c.m)
+//@   ensures  !holds(c.m) && !rholds(c.m)
+//@   ensures  hit: result.1 ==> (has(c.entries, key) && c.entries[key] == result.0)
+
+//@ func (*dawn.cache).once
+//@   requires c != nil && c.entries != nil
+//@   requires nolock: !holds(c.m) && !rholds(c.m)
+//@   ensures  !holds(c.m) && !rholds(c.m)
+//@   ensures  same-value: result.1 == nil ==> (has(c.entries, key) && c.entries[key] == result.0)
+//@   ensures  fail-nil: result.1 != nil ==> result.0 == nil
+//@   callsite Call: assert only-when-absent: holds(c.m) && !has(c.entries, key)
+//@   modifies heap, call_failed
